@@ -192,11 +192,11 @@ def discharge(ob, class_axioms, base_facts, want_model=True) -> Result:
         return Result(ob.oid, "proved", "syntactic", 0.0)
     fs, ninst = build_query(ob, class_axioms, base_facts)
     s = z3.Solver()
-    s.set("timeout", Z3_TIMEOUT_MS)
+    s.set("timeout", Z3_TIMEOUT_MS if ob.expect != "sat" else min(Z3_TIMEOUT_MS, 6000))
     s.add(*fs)
     r = s.check()
     backend = f"z3-{z3.get_version_string()}"
-    if r == z3.unknown:
+    if r == z3.unknown and ob.expect != "sat":
         smt2 = s.to_smt2().replace("(check-sat)", "")
         cv = run_cvc5(smt2, CVC5_TIMEOUT_MS)
         if cv in ("sat", "unsat"):
